@@ -1,6 +1,6 @@
 (** Entry points of the executable model for the Japanese tax report (commands 80-89). *)
 From RP2V Require Import Base.Prelude Base.Time Base.Dec Model.Types Model.Generated Model.Codec Model.Grid
-  Model.ReportInput Model.JpReport.
+  Model.ReportInput Model.JpReport Model.JpLegend.
 Open Scope Z_scope.
 
 Definition enc_jp (r : result (list sheetw)) : list Z :=
@@ -30,3 +30,7 @@ Definition entry_jp_flags (a : list Z) : list Z :=
   | ys :: pe :: yg :: s => with_rinput s (fun lang i => enc_jp (jp_report lang (yg =? 1) (ys =? 1) (pe =? 1) i))
   | _ => [-1]
   end.
+
+(** cmd 84 -- [lang; rinput] -> the whole file: the Legend sheet (Model/JpLegend.v) followed by the report of cmd 80 *)
+Definition entry_jp_full (a : list Z) : list Z :=
+  with_rinput a (fun lang i => enc_jp (jp_report_full lang gen_jp_intra_yen_guard_on_crypto gen_jp_years_sorted gen_jp_prev_existing_year i)).
